@@ -333,6 +333,38 @@ def _krylov_deficient(r):
     return bool((gap <= thr * nrm).any())
 
 
+def _rect_own_root(b):
+    """`_root_decomposition` of the built operator returns a stored rectangular root (RootLinearOperator family)."""
+    if b["op"] in ("Root", "LowRankRoot"):
+        shp = refmodel.shape(b["base"])
+        return shp[-1] != shp[-2]
+    if b["op"] in ("BatchRepeat", "BlockDiag", "BlockInterleaved"):
+        return _rect_own_root(b["base"])
+    return False
+
+
+SUMKRON_PAIRED = ("Dense", "Minimal", "Toeplitz", "Sum", "PsdSum", "Masked", "SumBatch", "Mul", "Kernel", "KeOps", "Interpolated", "AddedDiag", "LowRankRootAddedDiag", "Chol")
+
+
+def _t_sumkron_root(case):
+    """SumKronecker._root_decomposition multiplies root_decomposition() of the second summand's factors with an inner matrix
+    built from their root_inv_decomposition(): consistent only when both come from the same factorization (generic classes:
+    same Cholesky factor / same cached Lanczos run; diagonal classes; Chol) -- not for classes that return a stored or
+    separately computed root."""
+    if case["op"] != "root" or not _reaches_private_root(case):
+        return False
+    m = _mcs(case)
+    for nd in _nodes(case, "SumKronecker"):
+        for f in nd["args"][1]["args"]:
+            if gen.is_diag_instance(f):
+                continue
+            if f["op"] in ("Root", "LowRankRoot"):
+                return True
+            if f["op"] not in SUMKRON_PAIRED and m is not None and refmodel.shape(f)[-1] > m and refmodel.shape(f)[-1] > 1:
+                return True
+    return False
+
+
 def _t_block_root(case):
     """Block operators wrap the (n x k) Lanczos root of their base in their own class, which needs square blocks: broken when
     k < n (truncation / early stop) and when probe vectors of the whole operator are passed on to the blocks."""
@@ -342,7 +374,7 @@ def _t_block_root(case):
     for nd in R.walk(r):
         if nd["op"] in ("BlockDiag", "BlockInterleaved") and not gen.is_diag_instance(nd):
             p = refmodel.shape(nd["base"])[-1]
-            if _mrds_eff(case) < p or _krylov_deficient(nd["base"]) or case.get("init"):
+            if _mrds_eff(case) < p or _krylov_deficient(nd["base"]) or case.get("init") or _rect_own_root(nd["base"]):
                 return True
     return False
 
@@ -436,6 +468,7 @@ TRIGGERS = {
     "kpad_kron_diag_root": _t_kpad_root,
     "root_inv_probes_structured": _t_probes_structured,
     "block_root_nonsquare": _t_block_root,
+    "sumkron_root_mismatched_factor_roots": _t_sumkron_root,
     "svd_of_singular_psd": _t_svd_singular,
     "diag_evecs_times_row": _t_diag_evecs,
     "kron_root_inv_method_ignored": _t_kron_root_inv_method,
@@ -618,7 +651,7 @@ def _direct(case):
 
 def _avoid_own(case, name):
     case = dict(case)
-    if name in ("kpad_kron_diag_root", "block_root_nonsquare"):
+    if name in ("kpad_kron_diag_root", "block_root_nonsquare", "sumkron_root_mismatched_factor_roots"):
         case.pop("init", None)
         case.pop("test", None)
         case["method"] = "symeig"
